@@ -93,6 +93,10 @@ def structures(rng):
                      proj=["Te:p"], soc=False, heavy=2),
         "Te_p_soc": dict(lat=_hex(1, ca), pos=[[u, 0, 0], [0, u, 1 / 3], [-u, -u, 2 / 3]], names=["Te"] * 3,
                          proj=["Te:p"], soc=True, heavy=3),
+        "hex_A_p": dict(lat=_hex(1, ca), pos=[[0, 0, 0]], names=["A"], proj=["A:p"], soc=False, heavy=1),
+        "hex_AB2_p": dict(lat=_hex(1, ca), pos=[[0, 0, 0], [1 / 3, 2 / 3, 0], [2 / 3, 1 / 3, 0]], names=["A", "B", "B"],
+                          proj=["A:p", "B:p"], soc=False, heavy=2),
+        "hex_A_d": dict(lat=_hex(1, ca), pos=[[0, 0, 0]], names=["A"], proj=["A:d"], soc=False, heavy=2),
         "hex_2site_pz": dict(lat=_hex(1, ca), pos=[[1 / 3, 2 / 3, 0], [2 / 3, 1 / 3, 0]], names=["C", "C"],
                              proj=["C:pz"], soc=False, heavy=1),
         "hcp_s": dict(lat=_hex(1, 1.63), pos=[[1 / 3, 2 / 3, .25], [2 / 3, 1 / 3, .75]], names=["M", "M"],
@@ -578,6 +582,119 @@ def check_projector(ctx, tag, info, a, b, what, scaleH, kf_c, centres_too=True):
     return True
 
 
+KF_CUTOFF = "C20-cutoff-orbit-below"
+
+
+def block_layout(sym):
+    """(first WF, orbitals per point, number of points) of every block of the symmetrizer"""
+    out = []
+    for bl, (ws, we) in enumerate(sym.D_wann_block_indices):
+        norb = int(sym.rot_orb_list[bl].shape[-1])
+        out.append((int(ws), norb, int(sym.atommap_list[bl].shape[0])))
+    return out
+
+
+def block_maxima(system, sym, key):
+    """max |element| of every stored block (iR, block1, a, block2, b) - the quantity the documented input criterion of
+    `cutoff` looks at (_matrix_to_dict: a block is used iff np.any(abs(X) > cutoff))"""
+    X = np.abs(system.get_R_mat(key))
+    lay = block_layout(sym)
+    out = {}
+    for iR in range(X.shape[0]):
+        for b1, (w1, n1, p1) in enumerate(lay):
+            for a in range(p1):
+                for b2, (w2, n2, p2) in enumerate(lay):
+                    for b in range(p2):
+                        out[(iR, b1, a, b2, b)] = float(X[iR, w1 + a * n1:w1 + (a + 1) * n1, w2 + b * n2:w2 + (b + 1) * n2].max())
+    return out
+
+
+def filtered_copy(system, sym, cut):
+    """the input with exactly the blocks removed that the documented criterion removes (cut: key -> cutoff)"""
+    s2 = copy.deepcopy(system)
+    lay = block_layout(sym)
+    for key in s2._XX_R:
+        X = s2.get_R_mat(key)
+        for (iR, b1, a, b2, b), m in block_maxima(system, sym, key).items():
+            if not m > cut[key]:
+                (w1, n1, _), (w2, n2, _) = lay[b1], lay[b2]
+                X[iR, w1 + a * n1:w1 + (a + 1) * n1, w2 + b * n2:w2 + (b + 1) * n2] = 0
+    s2.clear_cached_R()
+    return s2
+
+
+def orbit_entirely_below(system, sym, ops, cut):
+    """is there a stored block whose whole symmetry orbit (images under every operation; members that are not stored carry
+    no data) is removed by the cutoff for EVERY matrix?  This is the regime in which the unchanged code raises
+    'some R vectors were not set'."""
+    keys = list(system._XX_R)
+    maxima = {k: block_maxima(system, sym, k) for k in keys}
+    idx = {tuple(int(x) for x in r): i for i, r in enumerate(system.rvec.iRvec)}
+    lay = block_layout(sym)
+
+    def alive(iR, b1, a, b2, b):
+        return any(maxima[k][(iR, b1, a, b2, b)] > cut[k] for k in keys)
+    for (iR, b1, a, b2, b) in maxima[keys[0]]:
+        R = system.rvec.iRvec[iR]
+        found = False
+        for ig, g in enumerate(ops):
+            R2 = g["W"] @ R + sym.T_list[b1][a, ig] - sym.T_list[b2][b, ig]
+            j = idx.get(tuple(int(x) for x in R2))
+            if j is not None and alive(j, b1, int(sym.atommap_list[b1][a, ig]), b2, int(sym.atommap_list[b2][b, ig])):
+                found = True
+                break
+        if not found:
+            return True
+    return False
+
+
+def cutoff_sweep(ctx, name, info, st, s_raw, sym, ops, rs, kf_c, worst, n_variants):
+    """the option `cutoff` / `cutoff_dict` of symmetrize2: the documented meaning is an INPUT filter (blocks whose largest
+    element does not exceed the cutoff are not used).  For cutoffs taken from the actual block maxima of the model the
+    result must (i) equal the cutoff-free symmetrisation of the input with exactly those blocks removed, (ii) be
+    covariant / Hermitian like every symmetrised model, (iii) be unchanged by a further (cutoff-free) symmetrisation."""
+    scaleH = max(1.0, np.abs(s_raw.get_R_mat("Ham")).max())
+    keys = sorted(s_raw._XX_R)
+    bm = {k: np.array(sorted(block_maxima(s_raw, sym, k).values())) for k in keys}
+    variants = [("1e-14", dict(cutoff=1e-14), {k: 1e-14 for k in keys})]
+    for q in (0.1, 0.5, 0.3):
+        c = float(np.quantile(bm["Ham"], q))
+        variants.append((f"q{int(q * 100)}", dict(cutoff=c), {k: c for k in keys}))
+        cd = {k: float(np.quantile(bm[k], q)) for k in keys}
+        variants.append((f"dict-q{int(q * 100)}", dict(cutoff=-1, cutoff_dict={k: cd[k] for k in keys if k != "Ham"} | {"Ham": cd["Ham"]}), cd))
+    variants = [variants[0]] + [variants[i] for i in sorted(rs.choice(range(1, len(variants)), min(n_variants, len(variants) - 1),
+                                                                      replace=False))]
+    for label, kw, cut in variants:
+        tag = f"{name}[{', '.join(f'{k}={v}' for k, v in kw.items())}]"
+        cinfo = dict(info, option=label, **{k: v for k, v in kw.items()})
+        ctx.count("oracle.option.cutoff." + label.split("-q")[0].rstrip("0123456789"))
+        ctx.case(signature=(name, info["sub_seed"], "cutoff", label), nontrivial=label != "1e-14")
+        try:
+            sC = resymmetrized(s_raw, sym, None, **kw)
+        except AssertionError as e:
+            if "some R vectors were not set" in str(e):
+                below = orbit_entirely_below(s_raw, sym, ops, cut)
+                ctx.count("oracle.option.cutoff.raises_not_set")
+                ctx.fail(f"{tag}: symmetrize2 raises AssertionError 'some R vectors were not set' (an entire symmetry orbit of "
+                         f"blocks lies below the cutoff: {below})", cinfo, kf=KF_CUTOFF if below else None)
+                if below and KF_CUTOFF in ctx.known:
+                    continue
+                return False
+            raise
+        s_filt = filtered_copy(s_raw, sym, cut)
+        sF = resymmetrized(s_filt, sym)
+        if not check_projector(ctx, tag, cinfo, sF, sC, "the result with a cutoff is not the cutoff-free symmetrisation of the "
+                               "input with the sub-cutoff blocks removed", scaleH, kf_c):
+            return False
+        if not verify_result(ctx, tag, cinfo, st, sC, s_filt, ops, list(range(len(ops))), rs, kf_c,
+                             1, 3, worst):
+            return False
+        if not check_projector(ctx, tag, cinfo, sC, resymmetrized(sC, sym), "symmetrising the result again (without cutoff) "
+                               "changes it", scaleH, kf_c):
+            return False
+    return True
+
+
 def check_structure(ctx, name, st, sub_seed, n_k, max_g, n_sub=2, tower=True, route="symmetrize", include_TR=True):
     """one random model in one structure: the full group through System_R.symmetrize, then the option space of
     symmetrize2 (use_symmetries_index = subgroups, cutoff) - always checked against the group actually used"""
@@ -656,12 +773,9 @@ def check_structure(ctx, name, st, sub_seed, n_k, max_g, n_sub=2, tower=True, ro
             if not check_projector(ctx, tag, sinfo, s, sHG, "subgroup average followed by the full-group average differs "
                                    "from the full-group average", scaleH, kf_c):
                 return
-        # ---- option cutoff: a cutoff below every matrix element must not change anything
-        if rs.rand() < 0.5:
-            sC = resymmetrized(s_raw, sym, None, cutoff=1e-14)
-            ctx.count("oracle.option.cutoff")
-            if not check_projector(ctx, f"{name}[cutoff=1e-14]", info, s, sC, "a negligible cutoff changes the result",
-                                   scaleH, kf_c):
+        # ---- option space of symmetrize2: cutoff / cutoff_dict
+        if n_sub > 1 or (n_sub > 0 and ctx.tier == "quick"):
+            if not cutoff_sweep(ctx, name, info, st, s_raw, sym, ops, rs, kf_c, worst, n_variants=2):
                 return
         if len(ctx.samples) < 3:
             ctx.sample(dict(structure=name, num_wann=s.num_wann, group_order=nsym, nR_after=int(s.rvec.nRvec),
@@ -669,8 +783,8 @@ def check_structure(ctx, name, st, sub_seed, n_k, max_g, n_sub=2, tower=True, ro
 
 
 def pick_structures(ctx, rng, scale):
-    """quick tier: a stratified sample (one magnetic, one non-magnetic spinor, one with fractional translations, one
-    further light structure, one medium one); thorough tier: the whole catalogue"""
+    """quick tier: a stratified sample (one with p/d shells on a 3-/6-fold site, one magnetic, one non-magnetic spinor,
+    one with fractional translations, one further light structure); thorough tier: the whole catalogue"""
     S = structures(rng)
     names = list(S)
     if ctx.tier == "quick":
@@ -681,12 +795,13 @@ def pick_structures(ctx, rng, scale):
             mag = [n for n in light if S[n].get("magmom") is not None]
             spinor = [n for n in light if S[n]["soc"] and S[n].get("magmom") is None]
             frac = [n for n in ("Te_s", "hcp_s", "afm_tet", "hex_2site_pz") if n in light]
-            pick = [rng.choice(mag), rng.choice(spinor), rng.choice(frac)]
+            mixing = [n for n in ("hex_A_p", "hex_AB2_p", "hex_A_d", "Te_p") if n in names]
+            pick = [rng.choice(mixing), rng.choice(mag), rng.choice(spinor), rng.choice(frac)]
             rest = [n for n in light if n not in pick]
-            pick += rng.sample(rest, 1) + [rng.choice(mid)]
+            pick += rng.sample(rest, 1)
             chosen += list(dict.fromkeys(pick))
     else:
-        chosen = names * (2 * scale)      # two independent random models per structure
+        chosen = (names + [n for n in names if S[n]["heavy"] <= 3]) * scale   # a second random model for all but the heaviest
     return S, chosen
 
 
@@ -739,15 +854,17 @@ def oracle(ctx, scale):
     for i, name in enumerate(chosen):
         sub = rng.getrandbits(40)
         # quick tier: the option sweep (3 subgroups) on the first three structures of the stratified sample only
-        n_sub = 3 if (ctx.tier == "thorough" or i % 5 < 3) else 0
-        check_structure(ctx, name, S[name], sub, n_k=ctx.n(2, 3), max_g=ctx.n(6, 200), n_sub=n_sub,
+        # thorough tier: the first model of every structure gets the full option sweep, the second one a light one
+        n_sub = (3 if i < len(S) else 0) if ctx.tier == "thorough" else (3 if i % 5 < 3 else 0)
+        check_structure(ctx, name, S[name], sub, n_k=ctx.n(2, 3), max_g=ctx.n(6, 48), n_sub=n_sub,
                         tower=ctx.tier == "thorough")
         if ctx.failures and not ctx.searching:
             break
         # the other public entry point: symmetrize2(symmetrizer) called directly with a hand-built SymmetrizerSAWF
         # (quick: on the structures that did not get the option sweep and the first one; thorough: once per structure)
-        if (ctx.tier == "thorough" and i < len(S)) or (ctx.tier == "quick" and (n_sub == 0 or i % 5 == 0)):
-            check_structure(ctx, name, S[name], rng.getrandbits(40), n_k=ctx.n(1, 2), max_g=ctx.n(6, 200),
+        if (ctx.tier == "thorough" and i < len(S) and S[name]["heavy"] <= 3) or \
+                (ctx.tier == "quick" and (n_sub == 0 or i % 5 == 0)):
+            check_structure(ctx, name, S[name], rng.getrandbits(40), n_k=ctx.n(1, 2), max_g=ctx.n(6, 48),
                             n_sub=1, tower=False, route="symmetrize2",
                             include_TR=(i % 2 == 0))
         if ctx.failures and not ctx.searching:
